@@ -334,6 +334,23 @@ def g_resample(g, rng, tier):
         ratio = "%.3f" % (rng.random() * 0.99)
         g.add("resample", "valid", dict(n=n, nr=n, np=n, **lay("c", l), **lay("r", l)))
         g.add("resprior", "valid", dict(n=n, k=int(math.floor(n * float(ratio))), np=n, ratio=ratio, **lay("c", l)))
+    # priors whose initialize() reports FAILURE (the library ignores the return value: the prior block stays as constructed):
+    # a prior that refuses, the shipped grid prior with a grid of another size / with states that are not 4-dimensional;
+    # prior share below / at / above one half, odd and even particle counts, no prior particle at all (n * ratio < 1)
+    for n in (1, 2, 3, 4, 5, 6, 7, 9, 12):
+        for ratio in ("0.1", "0.25", "0.4", "0.5", "0.6", "0.75"):
+            k = int(math.floor(n * float(ratio)))
+            if tier == "quick" and (n + int(float(ratio) * 20)) % 3 == 0 and n > 3:
+                continue
+            g.add("resprior", "valid", dict(n=n, k=k, np=n, ratio=ratio, prior="refuse", **lay("c", rng.choice([(4, 0, 0), (2, 1, 0), (2, 1, 1), (1, 0, 0)]))))
+    for n, ratio, gx, gy, l in ((5, "0.5", 2, 2, (4, 0, 0)), (6, "0.5", 1, 3, (4, 0, 0)), (7, "0.3", 1, 2, (4, 0, 0)), (7, "0.3", 2, 2, (4, 0, 0)),
+                                (4, "0.5", 1, 2, (2, 0, 0)), (9, "0.25", 1, 2, (3, 1, 0)), (3, "0.2", 1, 1, (4, 0, 0)), (8, "0.5", 2, 2, (4, 0, 0)),
+                                (5, "0.4", 1, 3, (4, 0, 0)), (9, "0.4", 1, 3, (6, 0, 0))):
+        g.add("resprior", "valid", dict(n=n, k=int(math.floor(n * float(ratio))), np=n, ratio=ratio, prior="grid", gx=gx, gy=gy, **lay("c", l)))
+    for _ in range(6 if tier == "quick" else 80):
+        n = rng.randint(1, 60); ratio = "%.3f" % (rng.random() * 0.99)
+        g.add("resprior", "valid", dict(n=n, k=int(math.floor(n * float(ratio))), np=n, ratio=ratio, prior=rng.choice(["refuse", "grid"]),
+                                        gx=rng.randint(1, 4), gy=rng.randint(1, 4), **lay("c", rng.choice([(4, 0, 0), (4, 0, 0), (2, 1, 0), (0, 1, 1)]))))
     g.add("resample", "outside", dict(n=3, nr=2, np=3, **lay("c", LIN), **lay("r", LIN)))
     g.add("resample", "outside", dict(n=3, nr=3, np=2, **lay("c", LIN), **lay("r", LIN)))
     g.add("resample", "outside", dict(n=3, nr=3, np=3, **lay("c", LIN), **lay("r", (2, 0, 0))))
@@ -497,7 +514,15 @@ def g_objseq(g, rng, tier):
         g.add("objseq", "valid", dict(what="boot"), {"steps": ["l", "c4", "l", "c9", "l", "u2", "l", "c1", "l", "k3", "l", "c6", "l"] + cseq(8) + ["l"]})
         # Resampling / ResamplingWithPrior: particle count and layout changing between calls of one object
         lays4 = [(4, 0, 0), (2, 1, 0), (1, 0, 0), (2, 1, 1), (0, 2, 1)]
-        for what, ratio in (("resample", "0"), ("resprior", "0.5"), ("resprior", "0.25"), ("resprior", "0.8")):
+        for what, ratio, prior in (("resample", "0", "zero"), ("resprior", "0.5", "zero"), ("resprior", "0.25", "zero"), ("resprior", "0.8", "zero"),
+                                   ("resprior", "0.5", "refuse"), ("resprior", "0.3", "refuse"), ("resprior", "0.7", "refuse"), ("resprior", "0.1", "refuse"),
+                                   ("resprior", "0.5", "grid"), ("resprior", "0.3", "grid")):
+            if prior == "grid":
+                # the shipped grid prior (2 x 1 and 1 x 3): succeeds for some particle counts of the sequence, fails for the others
+                gx, gy = (2, 1) if ratio == "0.5" else (1, 3)
+                steps = ["r%d:%d:0:0" % (n, L) for (n, L) in ((4, 4), (5, 4), (7, 4), (4, 2), (10, 4), (3, 4), (12, 4), (1, 4), (6, 6), (11, 4))]
+                g.add("objseq", "valid", dict(what=what, ratio=ratio, prior=prior, gx=gx, gy=gy), {"steps": steps})
+                continue
             steps = []
             for i in range(10):
                 l = lays4[i % 5] if what == "resample" or i % 5 < 3 or True else lays4[0]
@@ -505,7 +530,7 @@ def g_objseq(g, rng, tier):
                 if what == "resprior" and int(math.floor(n * float(ratio))) >= n:
                     n += 1
                 steps.append("%s%d:%d:%d:%d" % ("n" if (what == "resample" and i % 4 == 3) else "r", n, l[0], l[1], l[2]))
-            g.add("objseq", "valid", dict(what=what, ratio=ratio), {"steps": steps})
+            g.add("objseq", "valid", dict(what=what, ratio=ratio, prior=prior), {"steps": steps})
         # WhiteNoiseAcceleration / LinearModel: sample and state counts changing between calls of one object
         for D in (1, 2, 3):
             steps = ["%s%d" % (rng.choice("spmt"), q) for q in (3, 0, 1, 17, 2, 40, 1, 5)] + ["s7", "s0", "s1", "m2", "m9", "t4", "t1", "p6"]
@@ -563,7 +588,7 @@ def objseq_expected(case):
     elif what in ("resample", "resprior"):
         for t in steps:
             n, L, C, q = ints(t)
-            out += [1] if t[0] == "n" else [n, n, n, n, lcov((L, C, q)) * n]
+            out += [1] if t[0] == "n" else [n, n, n, n, lcov((L, C, q)) * n, 0]      # sizes of the result; no parent that is neither -1 nor an input index
     elif what == "wna":
         d = 2 * int(m["D"])
         for t in steps:
@@ -820,7 +845,11 @@ def oracle(case, impl, model):
                     v.append(("C14:EstimatesExtraction::extract:estimate-shape", "operation %s (statistic %d) returned (%d, %d numbers) for a %d-dimensional state"
                               % (t, stat, o[i], o[i + 1], ssz))); break
             i += 2 if t[0] in "xX" else 1
-    if k in ("resample", "resprior") and len(o) == 5:
+    if k == "resprior" and len(o) == 6 and o[5] != 0:
+        v.append(("C14:ResamplingWithPrior::resample:parent-out-of-range", "%d parent(s) are neither -1 nor the index of one of the %s input particles (prior %s, share %s)"
+                  % (o[5], case.meta["n"], case.meta.get("prior"), case.meta.get("ratio"))))
+    if k in ("resample", "resprior") and len(o) in (5, 6):
+        o = o[:5]
         n = int(case.meta["n"] if k == "resprior" else case.meta["nr"])
         if not (o[0] == o[1] == o[2] == o[3] == n):
             v.append(("C14:%s:descriptor!=storage" % ("ResamplingWithPrior::resample" if k == "resprior" else "Resampling::resample"),
